@@ -296,6 +296,27 @@ func checkSingleInstance(c *Ctx, lw *lockWorld) {
 			c.Undecided("R18.3", "anchor:"+key, "cache", "not found")
 			continue
 		}
+		// the insertion may live in a same-package helper the function calls (the locked section extracted)
+		hasInsert := func(f *ssa.Function) bool {
+			for _, b := range f.Blocks {
+				for _, ins := range b.Instrs {
+					if mu, ok := ins.(*ssa.MapUpdate); ok {
+						if _, fld, isF := loadOfField(mu.Map); isF && fld == "cached" {
+							return true
+						}
+					}
+				}
+			}
+			return false
+		}
+		if !hasInsert(fn) {
+			for _, h := range fnAndHelpers(bodyOf(fn), 1) {
+				if h != fn && hasInsert(h) {
+					fn = h
+					break
+				}
+			}
+		}
 		li := lw.info(fn)
 		found := false
 		for _, b := range fn.Blocks {
